@@ -338,7 +338,7 @@ type subst struct {
 	nullAlias bool
 }
 
-var scalarPool = []string{"docker:", "docker:/", "docker:x", "docker", ".", "..", "./.", "a/b@c:d", "docker://a:", "./x.yml@main", "./", "docker://", "owner/repo@", "checkout@feature/x", "a@b/c", "@/", "/@", "@", "a/b/c@", "a//b@c", "./@x/", "nan", ".nan", ".inf", "-.inf", "inf", "-0", "0x10", "0o17", "1e400", "1_000", "", "~", "true",
+var scalarPool = []string{"TZ=UTC", "CRON_TZ=UTC", "TZ=", "CRON_TZ=", "TZ=UTC 0 0 * * *", "TZ= 0 0 * * *", "@every 1h", "@every", "@", "@daily", "*/0 * * * *", "0- * * * *", "1-0 * * * *", "? ? ? ? ?", "99999999999999999999 * * * *", "0 0 * * * *", "* * * *", "docker:", "docker:/", "docker:x", "docker", ".", "..", "./.", "a/b@c:d", "docker://a:", "./x.yml@main", "./", "docker://", "owner/repo@", "checkout@feature/x", "a@b/c", "@/", "/@", "@", "a/b/c@", "a//b@c", "./@x/", "nan", ".nan", ".inf", "-.inf", "inf", "-0", "0x10", "0o17", "1e400", "1_000", "", "~", "true",
 	"123456789012345678901234567890123456789012345678901234567890", "NaN", "0", "-1", "1.5", "${{ x }}", " ${{ x }} ", "${{ a }} ${{ b }}", "a b"}
 
 var tagPool = []string{"!!float", "!!int", "!!bool", "!!null", "!!str", "!!binary"}
@@ -1003,7 +1003,8 @@ func exprRandStream(seed uint64, n int) *Stream {
 // operator, postfix form and built-in function: reaches every arm of the type
 // switches of expr_sema.go / expr_type.go
 var typedOperands = []string{"null", "true", "1", "1.5", "0xff", "'s'", "''", "fromJSON('[1,2]')", "fromJSON('[[\"a\"]]')", "fromJSON('{\"a\":{\"b\":null}}')",
-	"fromJSON('null')", "github", "env", "steps", "matrix", "github.event", "github.event.commits", "steps.*.outputs", "github.event.foo.*.bar", "secrets.x", "inputs", "vars", "needs", "job.services", "strategy", "runner"}
+	"fromJSON('null')", "fromJSON('[{\"a\":1},{\"a\":2}]')", "fromJSON('[{\"a\":1}]').*.zz", "fromJSON('1e999')", "fromJSON('[1,2,-1e400]')", "fromJSON('[')",
+	"github", "env", "steps", "matrix", "github.event", "github.event.commits", "steps.*.outputs", "github.event.foo.*.bar", "secrets.x", "inputs", "vars", "needs", "job.services", "strategy", "runner"}
 
 var typedOps = []string{"==", "!=", "<", "<=", ">", ">=", "&&", "||"}
 
@@ -1018,7 +1019,8 @@ func exprTypedStream() *Stream {
 				exprs = append(exprs, l+" "+op+" "+r)
 			}
 		}
-		exprs = append(exprs, "!"+l, "("+l+")", l+".a", l+".*", l+".*.a", l+"[0]", l+"['a']", l+"[*]", l+".a.b.c", "!!"+l)
+		exprs = append(exprs, "!"+l, "("+l+")", l+".a", l+".*", l+".*.a", l+"[0]", l+"['a']", l+"[*]", l+".a.b.c", "!!"+l,
+			l+".*.zz.y", l+".*.a.*.b", "join("+l+".*.zz, ',')", l+".*.zz == 1", l+"[0].zz.y")
 		for _, r := range o {
 			exprs = append(exprs, l+"["+r+"]")
 		}
